@@ -42,6 +42,10 @@ func VerifC08Graveyard() {
 		it   ChangeIterator[*vobj]
 		s    *c07state
 		open bool
+		// atRev: committed table revision up to which the iterator has consumed everything
+		// (set by a complete catch-up); it is "caught up" while atRev == committed.rev
+		atRev uint64
+		full  bool
 	}
 	var its []*itstate
 	mkIters := func() {
@@ -82,6 +86,7 @@ func VerifC08Graveyard() {
 			n := x.s.consume(seq, -1)
 			if !vnd.IsClosed(watch) {
 				vnd.Assert(n == 0, "C08.open-watch-delivers-nothing")
+				x.atRev, x.full = committed.rev, true
 				return
 			}
 		}
@@ -105,6 +110,14 @@ func VerifC08Graveyard() {
 			x.it.Close()
 			x.open = false
 		}
+	}
+	if vnd.Param("SCRIPT", 0) == 2 {
+		// concrete prefix: delete "a" while all iterators are open and lagging
+		w := d.db.WriteTxn(t)
+		t.Delete(w, &vobj{id: []byte("a")})
+		committed.revs.Del([]byte("a"))
+		committed.rev++
+		w.Commit()
 	}
 	// STEPS: bit mask of allowed step kinds (0 = steps 0..STEPMAX)
 	var menu []int
@@ -244,9 +257,14 @@ func VerifC08Graveyard() {
 	// safety: every still-open (lagging) iterator converges to the final table:
 	// a deletion collected before it was handed out would leave a stale object
 	for _, x := range its {
-		if x.open {
+		// an iterator that already consumed everything up to the final table state is left
+		// alone: discarding what only closed or caught-up iterators were waiting for must not
+		// depend on one more Next
+		if x.open && !(vnd.Param("NOFINALDRAIN", 0) == 1 && x.full && x.atRev == committed.rev) {
 			drain(x)
 			vnd.Assert(vnd.EqualMaps(x.s.replay, committed.revs), "C08.lagging-iterator-converges")
+		} else if x.open {
+			vnd.Cover("C08.caught-up-iterator-left-alone")
 		}
 	}
 	// liveness: all iterators caught up (or closed); after the rate-limit
